@@ -11,6 +11,7 @@ package main
 // constants and variables, predicates and spec functions of the contract files.
 
 import (
+	"sort"
 	"fmt"
 	"go/ast"
 	"go/constant"
@@ -571,6 +572,24 @@ func (env *SpecEnv) constValue(v constant.Value, t types.Type) (TV, error) {
 // lookupLocal finds the Alloc of a named local variable; with several candidates
 // the one whose declaration is the closest before the loop (or the last one) wins.
 func (ex *Exec) lookupLocal(name string, li *loopInfo) *ssa.Alloc {
+	// name__K selects the K-th declaration (in source order) of a local called name
+	if i := strings.LastIndex(name, "__"); i > 0 {
+		if k, err := strconv.Atoi(name[i+2:]); err == nil && k >= 1 {
+			var cs []*ssa.Alloc
+			for _, b := range ex.fn.Blocks {
+				for _, in := range b.Instrs {
+					if a, ok := in.(*ssa.Alloc); ok && a.Comment == name[:i] {
+						cs = append(cs, a)
+					}
+				}
+			}
+			sort.SliceStable(cs, func(x, y int) bool { return cs[x].Pos() < cs[y].Pos() })
+			if k <= len(cs) {
+				return cs[k-1]
+			}
+			return nil
+		}
+	}
 	var cands []*ssa.Alloc
 	for _, b := range ex.fn.Blocks {
 		for _, in := range b.Instrs {
@@ -1085,6 +1104,34 @@ func (env *SpecEnv) evalCall(e *ast.CallExpr) (TV, error) {
 			return TV{}, err
 		}
 		return TV{x.t, types.Typ[types.Int64]}, nil
+	case "atloop":
+		// atloop(K, e): the value e had at the head of loop K in the current iteration of that loop
+		// (the symbolic state right after the loop was cut); for inner-loop invariants and variants.
+		lit, ok := e.Args[0].(*ast.BasicLit)
+		if !ok || len(e.Args) != 2 {
+			return TV{}, fmt.Errorf("atloop(K, expr): K must be a literal loop ordinal")
+		}
+		k, _ := strconv.Atoi(lit.Value)
+		for _, li := range ex.loops {
+			if li.ordinal == k {
+				if li.snapshot == nil {
+					return TV{}, fmt.Errorf("atloop(%d, ...): loop %d has not been entered here", k, k)
+				}
+				saveSt, saveOld := env.st, env.inOld
+				env.st, env.inOld = li.snapshot, false
+				r, err := env.eval(e.Args[1])
+				env.st, env.inOld = saveSt, saveOld
+				return r, err
+			}
+		}
+		return TV{}, fmt.Errorf("atloop: no loop %d", k)
+	case "ascii":
+		x, err := env.eval(e.Args[0])
+		if err != nil {
+			return TV{}, err
+		}
+		vc.declareASCII()
+		return TV{mk(SBool, "gs.ascii", x.t), boolT}, nil
 	case "divides":
 		a, err := env.eval(e.Args[0])
 		if err != nil {
